@@ -2,8 +2,15 @@
    bool, option, unit, prod, list, sumbool, sumor map to OCaml's; Z, positive,
    nat stay the extracted inductives.  No Extract Constant. *)
 From Coq Require Import Extraction ExtrOcamlBasic.
-From H263V Require Import base.Prelude model.Deblock model.Yuv.
+From H263V Require Import base.Prelude model.Deblock model.Yuv model.Types model.Tables model.Reader model.Header model.Syntax model.F32 model.Recon model.Decoder.
 Separate Extraction
   Deblock.deblock Deblock.process Deblock.process_lane Deblock.annexJ Deblock.quant_to_strength
   Deblock.table_J2 Deblock.annexJ_flat Deblock.updown_ramp
-  Yuv.px Yuv.spec_px Yuv.yuv420_to_rgba Yuv.rgba_spec_flat.
+  Yuv.px Yuv.spec_px Yuv.yuv420_to_rgba Yuv.rgba_spec_flat
+  Reader.reader_of_bytes Reader.read_bits Reader.read_signed_bits Reader.peek_bits Reader.recognize_start_code
+  Reader.read_vlc Reader.read_umv Reader.bits_of_bytes
+  Header.decode_picture Syntax.decode_macroblock Syntax.decode_block
+  Recon.inverse_rle_block Recon.predict_candidate Recon.mv_decode Recon.halfpel_decode Recon.idct_channel
+  Recon.gather_go Recon.plane_data Recon.new_plane Recon.dequant Recon.average_sum_of_mvs Recon.median_of
+  Decoder.new_state Decoder.decode_next_picture Decoder.cleanup_buffers Decoder.get_last_picture
+  Decoder.get_reference_picture Decoder.next_quant.
